@@ -35,6 +35,7 @@ def main():
     ap.add_argument("--checks", default=",".join(ALL))
     ap.add_argument("--skip-tests", action="store_true")
     ap.add_argument("--seed", default="0")
+    ap.add_argument("--no-lean", action="store_true", help="skip the Lean build/audit stage of the checks (it does not depend on /repo)")
     args = ap.parse_args()
     wt = Path(tempfile.mkdtemp(prefix=f"eval_{args.name}_", dir="/tmp"))
     shutil.rmtree(wt)
@@ -60,7 +61,7 @@ def main():
         caught = {}
         for c in [c for c in args.checks.split(",") if c]:
             e = dict(os.environ, LCM_REPO=str(wt), VERIF_SEED=args.seed)
-            r = sh(f"/venv/bin/python harness/check.py {c} --tier quick", cwd=VERIF, env=e, timeout=3600)
+            r = sh(f"/venv/bin/python harness/check.py {c} --tier quick" + (" --no-lean" if args.no_lean else ""), cwd=VERIF, env=e, timeout=3600)
             line = next((ln for ln in r.stdout.splitlines() if ln.startswith("VIOLATION")), None)
             caught[c] = {"rc": r.returncode, "violation": line}
             if line:
